@@ -216,4 +216,46 @@ theorem readBack_idem (a b : Registry) (h : sameText a b) (r : Record) (p : Byte
     exact readFeature_readFeature a b h f (hd' f hf)
   simp only [readBack, ht, accessionLine, List.append_nil]
 
+/-! ### … without any hypothesis on the table: what was read is what `Props.Add` builds -/
+
+/-- the table that was read back always has distinct row names -/
+theorem tableDistinct_readFeature (a : Registry) (fs : List QFeature) :
+    tableDistinct (fs.map (readFeature a)) = true := by
+  simp only [tableDistinct, List.all_map, List.all_eq_true]
+  intro f _
+  exact propsNorm_distinct _ (propsOfItems_norm _)
+
+theorem readItems_fixed (b : Registry) (ps : List (List Bytes)) (hn : propsNorm ps = true)
+    (hq : RowsQ (fun k w => readValue b k w = w) ps) : readItems b ps = propsItems ps := by
+  unfold readItems
+  rw [propsItems_rows _ hn]
+  have hid : ∀ kv ∈ ps.flatMap rowItems, (kv.1, readValue b kv.1 kv.2) = kv := by
+    intro kv hkv
+    have h1 : readValue b kv.1 kv.2 = kv.2 := rowsQ_items _ _ hq kv hkv
+    rw [h1]
+  exact (List.map_congr_left hid).trans (List.map_id _)
+
+theorem readFeature_readFeature' (a b : Registry) (h : sameText a b) (f : QFeature) :
+    readFeature b (readFeature a f) = readFeature a f := by
+  have hn : propsNorm (propsOfItems (readItems a f.props)) = true := propsOfItems_norm _
+  have hq : RowsQ (fun k w => readValue b k w = w) (propsOfItems (readItems a f.props)) := by
+    apply propsOfItems_rowsQ
+    intro q hq
+    simp only [readItems, List.mem_map] at hq
+    obtain ⟨kv, _, rfl⟩ := hq
+    exact readValue_readValue a b h kv.1 kv.2
+  have hi := readItems_fixed b _ hn hq
+  simp only [readFeature]
+  rw [hi, propsOfItems_propsItems _ hn]
+
+/-- **`readBack` is idempotent on its image**, for every record -/
+theorem readBack_idem' (a b : Registry) (h : sameText a b) (r : Record) (p : Bytes) :
+    readBack b (readBack a r p) p = readBack a r p := by
+  have ht : (r.table.map (readFeature a)).map (readFeature b) = r.table.map (readFeature a) := by
+    rw [List.map_map]
+    apply List.map_congr_left
+    intro f _
+    exact readFeature_readFeature' a b h f
+  simp only [readBack, ht, accessionLine, List.append_nil]
+
 end Gts.GenBank
